@@ -18,6 +18,7 @@ theorem runProg_lenMono (inv : Inv) (hinv : LenMono inv) (p : Prog) :
   induction p with
   | ret r => intro s; exact Nat.le_refl _
   | fail => intro s; exact Nat.le_refl _
+  | panic => intro s; exact Nat.le_refl _
   | get k f ih => intro s; simp only [runProg]; exact ih _ s
   | put k v n ih => intro s; simp only [runProg]; refine Nat.le_trans ?_ (ih _); exact Nat.le_refl _
   | del k n ih => intro s; simp only [runProg]; refine Nat.le_trans ?_ (ih _); exact Nat.le_refl _
@@ -27,8 +28,10 @@ theorem runProg_lenMono (inv : Inv) (hinv : LenMono inv) (p : Prog) :
     intro s
     simp only [runProg]
     have h1 := hinv { s with input := encodeParam a m args }
-    refine Nat.le_trans (Nat.le_trans h1 ?_) (ih _ _)
-    split <;> exact Nat.le_refl _
+    split
+    · exact h1
+    · refine Nat.le_trans (Nat.le_trans h1 ?_) (ih _ _)
+      split <;> exact Nat.le_refl _
   | witness a f ih => intro s; simp only [runProg]; exact ih _ s
   | getInput f ih => intro s; simp only [runProg]; exact ih _ s
   | context f ih => intro s; simp only [runProg]; exact ih _ _ s
@@ -69,6 +72,7 @@ theorem runProg_agree (inv1 inv2 : Inv) (k : Nat) (hm : LenMono inv1)
   induction p with
   | ret r => intro s _; rfl
   | fail => intro s _; rfl
+  | panic => intro s _; rfl
   | get k' f ih => intro s h; simp only [runProg]; exact ih _ s h
   | put k' v n ih => intro s h; simp only [runProg]; exact ih _ h
   | del k' n ih => intro s h; simp only [runProg]; exact ih _ h
@@ -80,9 +84,11 @@ theorem runProg_agree (inv1 inv2 : Inv) (k : Nat) (hm : LenMono inv1)
     have h1 : inv1 { s with input := encodeParam a m args } = inv2 { s with input := encodeParam a m args } := hag _ h
     have h2 := hm { s with input := encodeParam a m args }
     rw [← h1]
-    apply ih
-    have : k ≤ (inv1 { s with input := encodeParam a m args }).2.contexts.length := Nat.le_trans h h2
-    split <;> exact this
+    split
+    · rfl
+    · apply ih
+      have : k ≤ (inv1 { s with input := encodeParam a m args }).2.contexts.length := Nat.le_trans h h2
+      split <;> exact this
   | witness a f ih => intro s h; simp only [runProg]; exact ih _ s h
   | getInput f ih => intro s h; simp only [runProg]; exact ih _ s h
   | context f ih => intro s h; simp only [runProg]; exact ih _ _ s h
